@@ -755,6 +755,8 @@ class Interp:
         if isinstance(obj, dict):
             if isinstance(idx, (str, int)) and idx in obj:
                 return obj[idx]
+            if isinstance(idx, (str, int)) and hasattr(obj, "vf_missing"):
+                return obj.vf_missing(self, idx)          # contract-defined dict subclass with __missing__ (defaultdict), additive (C66)
             if is_sym_int(idx) and obj and all(isinstance(k, int) and not isinstance(k, bool) for k in obj):
                 # python dict with concrete int keys indexed by a SYMBOLIC int (additive, C22): case split over the keys
                 for k in obj:
@@ -1790,6 +1792,9 @@ class Interp:
             return
         if isinstance(cur, SeqV) and isinstance(s.op, ast.Add) and not cur.is_tuple:
             cur.term = s_concat(cur.term, self.as_seq(rhs, cur).term)
+            return
+        if isinstance(cur, dict) and isinstance(rhs, dict) and isinstance(s.op, ast.BitOr):
+            cur.update(rhs)          # d |= other on python dicts with concrete keys (additive, C66): IN-PLACE update, identity kept
             return
         self.assign(s.target, self.binop(s.op, cur, rhs, s), env)
 
